@@ -543,3 +543,66 @@ def natural_loop_of(body, block):
         if block in loop:
             return d, loop
     return None, set()
+
+
+def helper_relations(F, c, role_of):
+    """c: the edge of a branch on the result of a loop-free bool-returning workspace helper `h(args..)`.
+    role_of(slice of a call argument in the caller) -> a role label or None.  Returns, for the truth value of the edge, the list
+    of relation sets that hold on the helper's paths producing that value: [ {(roleA, rel, roleB), ..}, .. ] with rel in
+    < <= > >= == != and constants as roles 'const:<v>'; None when the helper cannot be read."""
+    from .. import pathsym
+    if c.kind != "call" or c.truth is None or not isinstance(c.call, dict):
+        return None
+    tg = [x for x in F.resolve_targets(c.call) if x in F.bodies]
+    if len(tg) != 1:
+        return None
+    hb = F.bodies[tg[0]]
+    if (hb.local_ty(0) or "") != "bool":
+        return None
+    try:
+        paths, _ev = pathsym.decision_table(F, F.main_body(hb))
+    except pathsym.TooComplex:
+        return None
+    roles = {}
+    for i, a in enumerate(c.call["args"]):
+        roles[i + 1] = role_of(Slice(F, c.body).operand(a))
+
+    def role(e):
+        e = pathsym.strip_refs(e)
+        if e[0] == "param":
+            return roles.get(e[1])
+        if e[0] == "const":
+            return "const:%s" % e[1]
+        return None
+    OPS = {"Lt": "<", "Le": "<=", "Eq": "==", "Ne": "!="}
+    NEGS = {"<": ">=", "<=": ">", "==": "!=", "!=": "=="}
+
+    def rel_of(e, truth):
+        e = pathsym.strip_refs(e)
+        if e[0] == "not":
+            return rel_of(e[1], not truth)
+        if e[0] == "bin" and e[1] in OPS:
+            a, b = role(e[2]), role(e[3])
+            if a is None or b is None:
+                return None
+            r = OPS[e[1]] if truth else NEGS[OPS[e[1]]]
+            return (a, r, b)
+        return None
+    out = []
+    for p in paths:
+        rels = set()
+        for (ce, o) in p.conds:
+            if isinstance(o, bool):
+                r = rel_of(ce, o)
+                if r:
+                    rels.add(r)
+        r0 = pathsym.strip_refs(p.ret) if p.ret is not None else None
+        if r0 is None:
+            continue
+        if r0[0] == "const":
+            if (r0[1] in ("true", "1")) == c.truth:
+                out.append(rels)
+        else:
+            r = rel_of(r0, c.truth)
+            out.append(rels | ({r} if r else set()))
+    return out
